@@ -45,7 +45,7 @@ def _chunk(sig, hdr_rest, entries_bytes, chunk_size, density):
     qr_size = free + len(qr)
     return sig + struct.pack("<I", qr_size) + hdr_rest + body + bytes(free) + qr
 
-def build_dir(entries, chunk_size, density, with_index=True, max_per_chunk=None, chain_rng=None):
+def build_dir(entries, chunk_size, density, with_index=True, max_per_chunk=None, chain_rng=None, index_slot=None):
     """entries: list of (name, section, offset, length), will be sorted.  Returns (chunks bytes list, index_root, depth, first_pmgl, last_pmgl)"""
     ents = sorted(entries, key=lambda e: sort_key(e[0]))
     enc = [encint(len(n)) + n + encint(s) + encint(o) + encint(l) for (n, s, o, l) in ents]
@@ -73,6 +73,19 @@ def build_dir(entries, chunk_size, density, with_index=True, max_per_chunk=None,
         chunks[place[gi]] = _chunk(b"PMGL", struct.pack("<III", 0, prev, nxt), g, chunk_size, density)
         firstnames.append(ents[idx][0]); idx += len(g)
     index_root = 0xFFFFFFFF; depth = 1
+    if index_slot is not None and with_index and npmgl > 1:
+        # the (single) index chunk lies physically between the listing chunks: chunk numbers, not positions, say what is what
+        k = min(index_slot, npmgl - 1)
+        place = [gi if gi < k else gi + 1 for gi in range(npmgl)]
+        chunks = [None] * (npmgl + 1)
+        for gi, g in enumerate(groups):
+            prev = place[gi - 1] if gi > 0 else 0xFFFFFFFF; nxt = place[gi + 1] if gi + 1 < npmgl else 0xFFFFFFFF
+            chunks[place[gi]] = _chunk(b"PMGL", struct.pack("<III", 0, prev, nxt), g, chunk_size, density)
+        ienc = [encint(len(n_)) + n_ + encint(c_) for (n_, c_) in zip(firstnames, place)]
+        root = _chunk(b"PMGI", b"", ienc, chunk_size, density)
+        if root is None: raise ValueError("index does not fit one chunk")
+        chunks[k] = root
+        return chunks, k, 2, 0, npmgl
     if with_index and npmgl > 1:
         level = list(zip(firstnames, place))
         while True:
@@ -97,8 +110,9 @@ def build_dir(entries, chunk_size, density, with_index=True, max_per_chunk=None,
     return chunks, index_root, depth, 0, npmgl - 1
 
 def build(files0, files1=(), rng=None, version=3, chunk_size=4096, density=2, with_index=True, wbits=16, reset_frames=2,
-          rt_entry_size=8, with_rtable=True, with_spaninfo=True, control_version=2, lang=0x409, max_per_chunk=None, dirs=(), pad_to_reset=True, content_last=True, lzx_match_p=0.5, rt_slack=0, gaps=(0, 0, 0), rt_keep=None, extra_entries=(), overlong_last=0, lzx_btypes=None, chain_rng=None):
-    """files0: [(name, data)] stored uncompressed; files1: [(name, length)] stored in the LZX section (content drawn by the generator).
+          rt_entry_size=8, with_rtable=True, with_spaninfo=True, control_version=2, lang=0x409, max_per_chunk=None, dirs=(), pad_to_reset=True, content_last=True, lzx_match_p=0.5, rt_slack=0, gaps=(0, 0, 0), rt_keep=None, extra_entries=(), overlong_last=0, lzx_btypes=None, chain_rng=None, sys_len=None, index_slot=None):
+    """sys_len: {system file name: length declared in the directory} (the data stay as they are).
+    files0: [(name, data)] stored uncompressed; files1: [(name, length)] stored in the LZX section (content drawn by the generator).
     returns (chm bytes, expected {name: (section, offset, length, data)})"""
     sec0 = b""; entries = []; expect = {}
     for name, data in files0:
@@ -136,8 +150,8 @@ def build(files0, files1=(), rng=None, version=3, chunk_size=4096, density=2, wi
         if content_last: sysf.append((CONTENT, stream))
         else: sysf.insert(1, (CONTENT, stream))
         for name, data in sysf:
-            entries.append((name, 0, len(sec0), len(data))); expect[name] = (0, len(sec0), len(data), data); sec0 += data
-    chunks, index_root, depth, first, last = build_dir(entries, chunk_size, density, with_index, max_per_chunk, chain_rng)
+            entries.append((name, 0, len(sec0), (sys_len or {}).get(name, len(data)))); expect[name] = (0, len(sec0), len(data), data); sec0 += data
+    chunks, index_root, depth, first, last = build_dir(entries, chunk_size, density, with_index, max_per_chunk, chain_rng, index_slot)
     hs1 = struct.pack("<4sIIIIIIIIIiII", b"ITSP", 1, 0x54, 0x0A, chunk_size, density, depth, index_root, first, last, -1, len(chunks), lang) + GUIDS[:16] + struct.pack("<Iiii", 0x54, -1, -1, -1)
     dirbytes = hs1 + b"".join(chunks)
     hdrlen = 0x38 + (0x28 if version >= 3 else 0x20)
